@@ -301,6 +301,7 @@ mod replay {
 
     pub struct Params {
         pub fix_a: bool,
+        pub fix_a2: bool,
         pub fix_b: bool,
         pub fix_c: bool,
         pub nl: usize,
@@ -661,10 +662,14 @@ mod replay {
                 "al.got" => {
                     let held = self.held_client(i);
                     let a = self.advance(role, step)?;
-                    if self.p.fix_a {
+                    if self.p.fix_a2 {
                         if a.0 != "al.counted" { return Err(Fail::Stalled(step)); }
                         Ok(())
                     } else {
+                        if a.0 == "al.counted" {
+                            // a point without effect in this code shape
+                            self.advance(role, step)?;
+                        }
                         self.spawned(held, step)
                     }
                 }
@@ -691,7 +696,7 @@ mod replay {
             self.conn_order.push(c);
             let role = Role::Conn(self.clients[c].port);
             let a = self.ctl.at(role, STEP_TIMEOUT).ok_or(Fail::Stalled(step))?;
-            if self.p.fix_a && a.0 == "co.start" {
+            if self.p.fix_a2 && a.0 == "co.start" {
                 // repaired shape: the task is counted already; run it up to the handler
                 self.to_handler(c, step)?;
             }
@@ -1006,7 +1011,12 @@ mod replay {
 #[cfg(feature = "hooks")]
 pub fn replay(x: &X) -> X {
     let l = match x.as_l() { Some(l) if l.len() == 3 => l, _ => return X::bad() };
-    let v = match l[0].as_l() { Some([a, b, c]) => match (a.as_bool(), b.as_bool(), c.as_bool()) { (Some(a), Some(b), Some(c)) => (a, b, c), _ => return X::bad() }, _ => return X::bad() };
+    // (fixA fixB fixC) or (fixA fixB fixC count-before-spawn): the fourth flag splits fixA for the directed search
+    let v = match l[0].as_l() {
+        Some([a, b, c]) => match (a.as_bool(), b.as_bool(), c.as_bool()) { (Some(a), Some(b), Some(c)) => (a, b, c, a), _ => return X::bad() },
+        Some([a, b, c, d]) => match (a.as_bool(), b.as_bool(), c.as_bool(), d.as_bool()) { (Some(a), Some(b), Some(c), Some(d)) => (a, b, c, d), _ => return X::bad() },
+        _ => return X::bad(),
+    };
     let n = match l[1].as_l() { Some([X::N(a), X::N(b), X::N(c), X::N(d)]) if *a <= 16 && *b <= 16 && *c <= 16 && *d <= 16 => (*a as usize, *b as usize, *c as usize, *d as usize), _ => return X::bad() };
     let mut sched = Vec::new();
     for e in match l[2].as_l() { Some(e) => e, None => return X::bad() } {
@@ -1015,7 +1025,7 @@ pub fn replay(x: &X) -> X {
             _ => return X::bad(),
         }
     }
-    replay::replay(|| replay::Params { fix_a: v.0, fix_b: v.1, fix_c: v.2, nl: n.0, nc: n.1, nh: n.2, nw: n.3 }, &sched)
+    replay::replay(|| replay::Params { fix_a: v.0, fix_a2: v.3, fix_b: v.1, fix_c: v.2, nl: n.0, nc: n.1, nh: n.2, nw: n.3 }, &sched)
 }
 #[cfg(not(feature = "hooks"))]
 pub fn replay(_x: &X) -> X {
